@@ -8,6 +8,7 @@ use sycamore::prelude::*;
 #[path = "../../native/src/util.rs"]
 mod util;
 mod engine;
+mod view;
 
 /// DOM utilities for the verification engines.
 pub mod domutil {
@@ -405,6 +406,7 @@ fn main() {
         }));
         match arg.as_str() {
             "dom" => engine::run(&args),
+            "view" => view::run(&args),
             _ => { eprintln!("engine not built yet"); std::process::exit(2) }
         }
         return;
